@@ -536,6 +536,18 @@ pub fn oracle_sha256tree(rng: &mut Rng, n: usize, _tier: &str) -> OracleReport {
             0 => T::nil(),
             1 => T::Atom(vec![1]),
             2 => T::pair(T::nil(), T::nil()),
+            // large atoms (alone and inside a tree): the per-byte rates of the two programs differ, the
+            // fixed margin of the Chialisp program must not be what keeps the native operator cheaper
+            3..=12 => {
+                let len = [63usize, 64, 1000, 1300, 3100, 4096, 65536, 1 << 20, 200, 5000][i - 3];
+                let big = T::Atom(rng.bytes(len));
+                if i % 2 == 0 { big } else { T::pair(big.clone(), T::pair(T::Atom(vec![7]), big)) }
+            }
+            _ if i % 9 == 0 => {
+                let len = 1usize << rng.below(18);
+                let len2 = len + rng.below(64) as usize;
+                T::pair(trees::random_tree(rng, 6, 20), T::Atom(rng.bytes(len2)))
+            }
             _ => trees::random_tree(rng, 40, 200),
         };
         for flags in [0x400u32, 0x400 | NEW_COST_MODEL] {
@@ -640,6 +652,10 @@ pub fn generate_run_sha256tree(rng: &mut Rng, n: usize) -> Vec<String> {
             0 => T::nil(),
             1 => T::Atom(vec![1]),
             2 => T::pair(T::nil(), T::nil()),
+            3 => T::Atom(rng.bytes(63)),
+            4 => T::Atom(rng.bytes(64)),
+            5 => T::pair(T::Atom(rng.bytes(1300)), T::Atom(rng.bytes(130))),
+            6 => T::Atom(rng.bytes(4096)),
             _ => trees::random_tree(rng, 12, 60),
         };
         for flags in [0x400u32, 0x400 | NEW_COST_MODEL, 0] {
